@@ -51,7 +51,7 @@ fn test_range_extremes() {
 fn test_divisibleby_zero() {
     assert_eq!(render("{{ 42 is divisibleby(0) }}").unwrap(), "False");
     assert_eq!(
-        render("{{ -170141183460469231731687303715884105728 is divisibleby(-1) }}").unwrap(),
+        render("{{ (-170141183460469231731687303715884105727 - 1) is divisibleby(-1) }}").unwrap(),
         "True"
     );
     assert_eq!(render("{{ 42 is divisibleby(2) }}").unwrap(), "True");
